@@ -480,10 +480,10 @@ Section Exec.
                                   | None => false
                                   end) (mod_edges m)
     end.
-  Definition c_acyclic : bool :=
-    let order := topo_order in
+  Definition c_acyclic_with (order : list modpath) : bool :=
     nodup_paths order && forallb (edges_decrease order) pkg
     && forallb (fun p => has_mod pkg p) order.
+  Definition c_acyclic : bool := c_acyclic_with topo_order.
 
   (* c_static: executing the bodies in topological order, each against the finished modules before it, succeeds
      (names bound, annotations evaluable, imported names present, __all__ bound) *)
@@ -508,8 +508,11 @@ Section Exec.
             end
         end
     end.
-  Definition canon : res sysmods := fold_left canon_step topo_order (Ok []).
-  Definition c_static : bool := match canon with Ok _ => true | Fail _ => false end.
+  Definition canon_with (order : list modpath) : res sysmods := fold_left canon_step order (Ok []).
+  Definition canon : res sysmods := canon_with topo_order.
+  Definition c_static_with (order : list modpath) : bool :=
+    match canon_with order with Ok _ => true | Fail _ => false end.
+  Definition c_static : bool := c_static_with topo_order.
 
   (* two syntactic conjuncts that name the known annotation defects (implied by c_static failing, kept separate
      so that a failure can be attributed):  a string literal as a direct operand of `|`;  a class field whose
@@ -544,6 +547,10 @@ Section Exec.
   Definition pkg_ok_conjuncts : list bool :=
     [c_parses; c_closed; c_acyclic; c_no_str_or; c_no_shadow; c_no_ancestor_names; c_paths; c_static].
   Definition pkg_ok : bool := forallb (fun b => b) pkg_ok_conjuncts.
+
+  (* the same condition w.r.t. ANY supplied order of the modules (pkg_ok computes one by depth-first search) *)
+  Definition pkg_ok_with (order : list modpath) : bool :=
+    c_parses && c_closed && c_acyclic_with order && c_no_ancestor_names && c_paths && c_static_with order.
 End Exec.
 
 Definition size (pkg : package) : nat := S (S (length pkg)).
